@@ -360,6 +360,13 @@ def build(prop, tier="quick"):
             if "for (const auto &" in b:
                 b, t, n = range_for(b, lits)
                 tabs.extend(t)
+            if name in ("Keyword", "Symbol"):
+                # block-level postcondition (C01: "never silently drops text"): a match that is taken back leaves the cursor
+                # where the match was attempted (`start`, captured after the leading whitespace) - ghost code under cbmc only
+                b, n = re.subn(r"\breturn retval;", 'VERIF_GHOST(__CPROVER_assert(retval || POFF == OFF(&start), "[P] a keyword / symbol that '
+                               'is not accepted is not consumed either");) return retval;', b)
+                if n != 1:
+                    raise ExtractionBreak("%s: `return retval;` not found exactly once" % cname)
             guarded = bool(re.match(r"\s*Depth_Counter dc\{this\};", b))
             if not guarded and "Depth_Counter" in b:
                 raise ExtractionBreak("%s: Depth_Counter is not the first statement" % cname)
